@@ -560,6 +560,10 @@ func (a *Emitter) Comment(s string) {
 const hextable = "0123456789abcdef"
 
 func (a *Emitter) EmitBytes(b []byte) {
+	if a.code != nil && a.n+len(b) > len(a.code) {
+		// refuse before any listing line is recorded for bytes that will not be emitted
+		panic(fmt.Errorf("not enough space"))
+	}
 	if a.generateText {
 		a.emitBase()
 		s := strings.Builder{}
